@@ -7,6 +7,7 @@ All statements are for every program of the stage language, every state, every i
 -/
 import HvTick.Model.Tick
 import HvTick.Model.Ticks
+import HvTick.Gen.TickEnd
 
 namespace HvTick.Ticks
 
@@ -335,6 +336,16 @@ theorem tick_state_cleared_static_kept (prog : List Stage) (sts : List SSt) (b :
   · intro k h
     obtain ⟨inb, h1, h2⟩ := aux_tick_at prog sts b i _ h
     exact ⟨inb, _, by rw [h1]; rfl, h2, rfl⟩
+
+/-- **Every operator's tick-end code follows the same rule** (table regenerated from the operator sources on every
+run): the `'tick` arm of its `match persistence` emits reset code, the `'static` arm emits none — the rule
+`tickEndStage` models for `unique` and `fold`. -/
+theorem tickEnd_table_uniform : ∀ e ∈ Gen.tickEndTable, e.2.1 = true ∧ e.2.2 = false := by decide
+
+/-- the two operators of the corpus are rows of that table -/
+theorem tickEnd_table_has_corpus_ops :
+    ("unique.write_tick_end", true, false) ∈ Gen.tickEndTable ∧ ("fold.write_tick_end", true, false) ∈ Gen.tickEndTable := by
+  decide
 
 /-- `dedup` only ever grows the set: nothing a `'static` `unique` has seen is forgotten -/
 theorem unique_static_keeps (seen b : List Int) (x : Int) (h : x ∈ seen) : x ∈ (dedup seen b).1 := by
